@@ -37,6 +37,36 @@ def lookup1 {P H : Type} (rg : Nat) (ty op : String) : Strategy P H (Option H) :
   | [.handler h] => .inr h
   | _ => .inr none
 
+/-- the registrations in force / the PATH_STAR value after a history -/
+def regsAfter : (Nat → R) → List (HOp P H O R) → (Nat → R)
+  | reg, [] => reg
+  | reg, .register rg f :: rest => regsAfter (setAt reg rg (f (reg rg))) rest
+  | reg, .call _ _ :: rest => regsAfter reg rest
+  | reg, .setStar _ :: rest => regsAfter reg rest
+
+def starAfter : Bool → List (HOp P H O R) → Bool
+  | b, [] => b
+  | _, .setStar b :: rest => starAfter b rest
+  | b, .call _ _ :: rest => starAfter b rest
+  | b, .register _ _ :: rest => starAfter b rest
+
+/-- reference of a wildcard call (`'a.*'`, `'**'`, `T.__star__()` …) over items of exact types
+    `tys`: how the children of every item are reached is `childUse` of the uncached lookup under the
+    registrations in force — no memo of any kind -/
+def refStar (compute : String × String → Option H) (tys : List String) : List (StarUse H) :=
+  tys.map (childUse compute)
+
+/-- the tagged handlers a `StarUse` runs (op, tag), built-in ones left out: what a call shows of it -/
+def StarUse.tagged : StarUse Tag → List (String × Tag)
+  | .keysGet k g => (if k == "default" then [] else [("keys", k)]) ++ (if g == "default" then [] else [("get", g)])
+  | .iter i => if i == "default" then [] else [("iterate", i)]
+  | .leaf => []
+
+def StarUse.mode : StarUse Tag → String
+  | .keysGet _ _ => "kg"
+  | .iter _ => "it"
+  | .leaf => "none"
+
 /-- size bound of the path cache: at most `_MAX_CACHE + 1` entries per flag -/
 def SizeOK (maxCache : Nat) (c : PathCache P) : Prop := ∀ b, (c.get b).length ≤ maxCache + 1
 
